@@ -204,6 +204,9 @@ def templates():
     p = [S(), node("slice", n=0, m=2, k=1, ups=[1]), node("map", f="inc", ups=[1]),
          node("zip", ups=[2, 3])]; _sink(p, 4); _sink(p, 1)
     T.append(("slice_sibling_zip", p))
+    # two collectors side by side: flushing one leaves what the other holds (and its references) alone
+    p = [S(), node("collect", ups=[1]), node("map", f="inc", ups=[1]), node("collect", ups=[3])]; _sink(p, 2); _sink(p, 4)
+    T.append(("two_collects", p))
     # feedback edge guarded by unique: s -> union(s, g) -> unique -> map(dbl)=g -> back into union
     p = [S(), node("union", ups=[1, 4]), node("unique", f="id", m=0, b1=True, ups=[2]),
          node("map", f="dm3", ups=[3])]; _sink(p, 3)
